@@ -176,7 +176,7 @@ def run(tier, seed):
         if r.status == 'discharged':
             n_dis += len(r.obligations)      # frame obligations with an undecided canary: the frame check has no precondition to be vacuous about
             continue
-        payload = {'function': f.cname, 'class': cls, 'check': kind, 'status': r.status, 'failed_obligations': r.failed, 'detail': r.detail,
+        payload = {'function': f.cname, 'class': cls, 'check': kind, 'status': r.status, 'failed_obligations': r.failed, 'detail': r.detail, 'source_sha256': f.sha,
                    'verifier_output': r.log[-6000:], 'checker_cmd': r.cmd}
         if r.status == 'refuted':
             rep.violation(key, payload, no_input=True)
